@@ -50,7 +50,7 @@ def gen_values(rng, shape, dtype="f8", nan_rate=0.15, inf_rate=0.0):
             flat.append(float("inf") if rng.random() < 0.5 else float("-inf"))
         elif dtype in ("f8", "f4"):
             flat.append(float("nan") if rng.random() < nan_rate else float(rng.randint(-4, 9)))
-        elif dtype in ("i8", "i4"):
+        elif dtype in ("i8", "i4", "i2"):
             flat.append(rng.randint(-4, 9))
         elif dtype == "b1":
             flat.append(rng.random() < 0.5)
@@ -124,7 +124,7 @@ def gen_array_spec(rng, cfg, dims=None, labels=None, dtype=None, min_rank=0):
     return spec
 
 
-NP_DTYPE = {"f4": np.float32, "f8": np.float64, "i8": np.int64, "i4": np.int32, "b1": np.bool_, "O": object}
+NP_DTYPE = {"i2": np.int16, "f4": np.float32, "f8": np.float64, "i8": np.int64, "i4": np.int32, "b1": np.bool_, "O": object}
 
 
 def label_array(labs):
@@ -146,6 +146,8 @@ def values_array(spec):
     arr = np.array(spec["values"], dtype=dt)
     if arr.shape != shape:  # empty axes
         arr = arr.reshape(shape)
+    if spec.get("forder") and arr.ndim >= 2:
+        arr = np.asfortranarray(arr)      # the same array in column-major memory, as a transposition leaves it
     return arr
 
 
